@@ -229,21 +229,40 @@ def strip_lean_comments(src):
     return ''.join(out)
 
 
-def grep_forbidden(dirs=('OpusModel', 'OpusProofs', 'OpusProps')):
+def import_closure(modules):
+    """Files of this project (relative to lean/) reachable from `modules` through `import` lines."""
+    seen, todo = [], list(modules)
+    while todo:
+        m = todo.pop()
+        rel = m.replace('.', '/') + '.lean'
+        if rel in seen or not os.path.exists(os.path.join(LEAN, rel)):
+            continue
+        seen.append(rel)
+        for mm in re.finditer(r'^\s*(?:public\s+)?import\s+(?:all\s+)?([A-Za-z0-9_.]+)', open(os.path.join(LEAN, rel)).read(), re.M):
+            if mm.group(1).split('.')[0] in ('OpusModel', 'OpusProofs', 'OpusProps'):
+                todo.append(mm.group(1))
+    return sorted(seen)
+
+
+def grep_forbidden(modules=None, dirs=('OpusModel', 'OpusProofs', 'OpusProps')):
+    """Forbidden constructs in the Lean sources a property depends on (the import closure of its
+    modules; every file under `dirs` when no modules are given)."""
     hits = []
-    for d in dirs:
-        for root, _, files in os.walk(os.path.join(LEAN, d)):
-            for fn in files:
-                if not fn.endswith('.lean'):
-                    continue
-                p = os.path.join(root, fn)
-                code = strip_lean_comments(open(p).read())
-                # string literals cannot hide a tactic; ignore them
-                code = re.sub(r'"(?:[^"\\]|\\.)*"', '""', code)
-                for ln, text in enumerate(code.split('\n'), 1):
-                    for pat in FORBIDDEN:
-                        if re.search(pat, text):
-                            hits.append('%s:%d: %s' % (os.path.relpath(p, LEAN), ln, text.strip()[:120]))
+    if modules:
+        files = [os.path.join(LEAN, r) for r in import_closure(modules)]
+    else:
+        files = []
+        for d in dirs:
+            for root, _, fns in os.walk(os.path.join(LEAN, d)):
+                files += [os.path.join(root, fn) for fn in fns if fn.endswith('.lean')]
+    for p in files:
+        code = strip_lean_comments(open(p).read())
+        # string literals cannot hide a tactic; ignore them
+        code = re.sub(r'"(?:[^"\\]|\\.)*"', '""', code)
+        for ln, text in enumerate(code.split('\n'), 1):
+            for pat in FORBIDDEN:
+                if re.search(pat, text):
+                    hits.append('%s:%d: %s' % (os.path.relpath(p, LEAN), ln, text.strip()[:120]))
     return hits
 
 
